@@ -128,6 +128,7 @@ fn check_packet_case(s: &[u8], l: &mut Local) {
     if any {
         l.nontrivial(fp_bytes(s));
     }
+    super::common::header_field_readers_case(l, s);
 }
 
 /// written bytes of a third-party writer / UnknownBuilder: generic parse, exposure, conversion back
@@ -275,6 +276,8 @@ pub fn c19(ctx: &mut Ctx) {
         Member::Plain(Pkt::Unknown { pt: 207, count: 5, data: vec![1, 2, 3, 4, 5, 6, 7, 8], pad: 0 }),
         Member::Plain(Pkt::Unknown { pt: 192, count: 0, data: vec![], pad: 4 }),
         Member::Wrapped(Pkt::Unknown { pt: 199, count: 1, data: vec![9, 9, 9, 9], pad: 0 }),
+        Member::Wrapped(Pkt::Unknown { pt: 208, count: 2, data: vec![7, 7, 7, 7], pad: 4 }),
+        Member::Nested(vec![Member::Plain(Pkt::Unknown { pt: 209, count: 0, data: vec![], pad: 8 })]),
         Member::Plain(Pkt::Bye { ssrcs: vec![7], reason: "x".into(), pad: 0 }),
         Member::Plain(Pkt::Rr { ssrc: 8, blocks: vec![], pad: 0 }),
     ];
@@ -287,6 +290,7 @@ pub fn c19(ctx: &mut Ctx) {
         }
     });
     ctx.require_hit("header helper ok");
+    ctx.require_hit("header field readers ok");
     ctx.require_hit("padding helper ok");
     ctx.require_hit("check_packet: well-framed accepted");
     ctx.require_hit("check_packet: ill-framed rejected");
